@@ -87,14 +87,14 @@ var properties = map[string]propSpec{
 	},
 	"C05": {
 		Bounds: [2]map[string]any{
-			{"rows": "0..3", "limit,offset": "any int in [0,2^63)", "sort keys": "1-2 numeric keys × ASC/DESC/default, one string key ≤2 bytes, nullable numeric key; renamed, computed and shadowing aliases as sort keys (with a window)", "pipeline": "[WHERE] × {plain, DISTINCT, GROUP BY, GROUP BY + HAVING} × [ORDER BY first or second output column ASC/DESC] × [LIMIT 0..3 OFFSET 0..3] on 0..2 rows against a reference evaluator of the whole pipeline"},
+			{"rows": "0..3", "limit,offset": "any int in [0,2^63)", "sort keys": "1-2 numeric keys × ASC/DESC/default, one string key ≤2 bytes, nullable numeric key; renamed, computed and shadowing aliases as sort keys (with a window)", "literal spellings": "LIMIT/OFFSET with leading zeros in both spellings on 12..13 rows", "pipeline": "[WHERE] × {plain, DISTINCT, GROUP BY, GROUP BY + HAVING} × [ORDER BY first or second output column ASC/DESC] × [LIMIT 0..3 OFFSET 0..3] on 0..2 rows against a reference evaluator of the whole pipeline"},
 			{"rows": "0..4", "limit,offset": "same", "sort keys": "same"},
 		},
 		Outside: []string{"sort inputs above 12 elements (pdqsort paths; insertionSortLessFunc is what runs below)", "NaN sort keys"},
 	},
 	"C06": {
 		Bounds: [2]map[string]any{
-			{"rows": "DISTINCT: 0..3 numeric rows × 2 columns, 0..2 string rows (≤3 bytes over {' ',':','b'}); UNION: branches of 0..2 rows, 2 and 3 branches, UNION/UNION ALL mixes, parenthesised nested unions with their own LIMIT, LIMIT 0..10, LIMIT 0..10 OFFSET 0..5 on UNION and UNION ALL; DISTINCT with LIMIT 0..4 OFFSET 0..4"},
+			{"rows": "DISTINCT: 0..3 numeric rows × 2 columns, 0..2 string rows (≤3 bytes over {' ',':','b'}); UNION: branches of 0..2 rows, 2 and 3 branches, UNION/UNION ALL mixes, parenthesised nested unions with their own LIMIT, LIMIT 0..10, LIMIT 0..10 OFFSET 0..5 on UNION and UNION ALL; DISTINCT with LIMIT 0..4 OFFSET 0..4; DISTINCT over a projection of a two-column GROUP BY key (0..3 rows); a windowed plain branch inside UNION [ALL] … LIMIT"},
 			{"rows": "DISTINCT: 0..4 numeric rows; otherwise same"},
 		},
 		Outside: []string{"nested values in DISTINCT rows", "-0 cells", "ORDER BY on a union"},
@@ -170,21 +170,21 @@ var properties = map[string]propSpec{
 	},
 	"C17": {
 		Bounds: [2]map[string]any{
-			{"texts": "every byte string ≤5 over {\" ' ` [ ] a , blank 0xC3} (and over {\" ' \\ a `}) accepted by the tokenizer, for DoubleQuotesToBackTick; a double-quoted identifier after every prefix ≤3 bytes over {` \\ ' a blank}; ≤5 over {[ ] ' \" ` a , 1} for FixIdiomaticArray", "queries": "3 double-quoted queries, nested bracket arrays, Wrapped() vs {root: input} on 0..2 rows"},
+			{"texts": "every byte string ≤5 over {\" ' ` [ ] a , blank 0xC3} (and over {\" ' \\ a `}) accepted by the tokenizer, for DoubleQuotesToBackTick; a double-quoted identifier after every prefix ≤3 bytes over {` \\ ' a blank}; ≤5 over {[ ] ' \" ` a , 1} for FixIdiomaticArray", "queries": "3 double-quoted queries, nested bracket arrays, Wrapped() vs {root: input} on 0..2 rows; every ordered pair of the 4 dialect option sets on one text"},
 			{"texts": "≤6 bytes", "queries": "same"},
 		},
 		Outside: []string{"identifier bodies containing backslashes or backticks (the two quoting styles decode them differently)", "the oracle is the library's own MySQL tokenizer, run natively on concretised text"},
 	},
 	"C18": {
 		Bounds: [2]map[string]any{
-			{"arrays": "length 0..3 with optional NULLs", "index": "any float64 in (-2^31, 2^31), fractional and negative included", "case maps": "TO_UPPER/TO_LOWER on one- and two-rune strings over 23 runes (Latin digraphs, Georgian, Greek sigma, dotted/dotless i, sharp s, ligatures, Deseret, invalid UTF-8)", "arity": "21 fixed-arity functions × every other argument count up to arity+2", "functions": "CHANGETYPE of every text ≤3 bytes over {0 1 8 9 x - _ . +} and of halves -2.5..3 to integer/double/string/array (any case) and unknown targets; FIRST LAST ELEMENTAT UNWIND ARRAY IF (NULL branches included) CONCAT CHANGETYPE DATERANGE CONSTANT DEFAULTKEY FUSE TO_LOWER TO_UPPER (ASCII, ≤2 bytes) and 9 wrong-arity calls"},
+			{"arrays": "length 0..3 with optional NULLs", "index": "any float64 in (-2^31, 2^31), fractional and negative included", "case maps": "TO_UPPER/TO_LOWER on one- and two-rune strings over 23 runes (Latin digraphs, Georgian, Greek sigma, dotted/dotless i, sharp s, ligatures, Deseret, invalid UTF-8)", "argument spellings": "negative literals and arithmetic as arguments of CONCAT, ARRAY, CHANGETYPE, FIRST, IF, ELEMENTAT", "arity": "21 fixed-arity functions × every other argument count up to arity+2", "functions": "CHANGETYPE of every text ≤3 bytes over {0 1 8 9 x - _ . +} and of halves -2.5..3 to integer/double/string/array (any case) and unknown targets; FIRST LAST ELEMENTAT UNWIND ARRAY IF (NULL branches included) CONCAT CHANGETYPE DATERANGE CONSTANT DEFAULTKEY FUSE TO_LOWER TO_UPPER (ASCII, ≤2 bytes) and 9 wrong-arity calls"},
 			{"arrays": "same", "index": "same", "functions": "same"},
 		},
 		Outside: []string{"ENCODE/DECODE (gob reflection) and HASH (md5/sha1/sha512 compression functions) have no model: not applicable to this technique", "CHANGETYPE string↔double round trip is the NumText axiom itself"},
 	},
 	"C19": {
 		Bounds: [2]map[string]any{
-			{"rows": "1..2 rows with one nested row", "type errors": "a wrong-shaped cell at every row position × 15 clause positions (ORDER BY keys, WHERE, select list, GROUP BY, HAVING, DISTINCT, join ON, IN subquery, aggregates, BETWEEN, CASE, UNION)", "fault positions": "18 templates placing a fault-injecting function in WHERE, select list, HAVING, join ON (hash and nested loop), CTE body, derived table, select-list subquery, IN subquery, EXISTS, both UNION branches, RAISE_WHEN, type errors, ORDER BY, GROUP BY", "k": "none, 1..4"},
+			{"rows": "1..2 rows with one nested row", "repetition": "10 failing queries issued twice on equal inputs, then a healthy query", "type errors": "a wrong-shaped cell at every row position × 15 clause positions (ORDER BY keys, WHERE, select list, GROUP BY, HAVING, DISTINCT, join ON, IN subquery, aggregates, BETWEEN, CASE, UNION)", "fault positions": "18 templates placing a fault-injecting function in WHERE, select list, HAVING, join ON (hash and nested loop), CTE body, derived table, select-list subquery, IN subquery, EXISTS, both UNION branches, RAISE_WHEN, type errors, ORDER BY, GROUP BY", "k": "none, 1..4"},
 			{"rows": "1..3", "fault positions": "same", "k": "same"},
 		},
 	},
